@@ -470,6 +470,36 @@ def _finish(chk):
         return 1 if chk.violations else 0
 
 
+def run_part(chk, cfg, exe, proof_ok, detail):
+    """the SHA-3 / GOST campaigns on an existing Check (called by props/c11.py); returns (found, corr, thm)"""
+    _self_test(chk)
+    fam = diffrun.Family("hashx", exe, timeout=600)
+    thorough = chk.tier == "thorough"
+    all_cases = load_corpus() + list(cases(chk.rng, chk, thorough))
+    before = len(chk.violations)
+    n_or = oracle_pass(chk, exe, all_cases)
+    chk.cov["oracle_checked_answers_hashx"] = n_or
+    found, corr, thm = (False, None, None)
+    if len(chk.violations) == before:
+        found, corr, thm = diffrun.campaign(chk, fam, all_cases, proof_ok, detail, signature_of, "C11 hashx", batch=40)
+    if thorough and len(chk.violations) == before:
+        try:
+            fast = pv.build_harness("hash", cfg, ["hash.c"], repo_files=None, san="plain", opt="-O2")
+        except pv.BuildError:
+            fast = exe
+        big_update_probe(chk, fast, fam)
+    return (found or len(chk.violations) > before), corr, thm
+
+
+RULE_X = ("sha3-224/256/384/512 and gost: every message length 0..3B+1 (B = rate 144/136/104/72, 32) with random content and chunkings biased to "
+          "block boundaries, dispatcher histories, zero-filled single updates, random messages up to 200 kB, published GOST/CryptoPro vectors; judged "
+          "implementation = model = one-shot spec and implementation = hashlib / independent GOST reference (thorough: one update of 2^32+5 bytes)")
+ASSUME_X = ["conformance of keccakF / the GOST step function to the standards is tested (hashlib, independent GOST reference written from the "
+            "standard and validated on the published CryptoPro vectors), not proved",
+            "one update is shorter than 2^63 bytes (SHA-3) / 2^61 bytes (GOST)",
+            "messages above 2^24 bytes: the hashx driver does not evaluate the one-shot spec (covered by the chunking theorems)"]
+
+
 def run(chk):
     cfg = pv.repo_config()
     _self_test(chk)
